@@ -5,11 +5,12 @@ import glob, json, os, re
 trials = {}
 for f in sorted(glob.glob("/var/tmp/seedrun*.txt"), key=os.path.getmtime):
     for l in open(f):
-        m = re.match(r"(\S+) (C\d\d) rc=(-?\d+) wall=(\d+)s :: (.*)$", l.strip())
+        m = re.match(r"(\S+) (C\d\d) rc=(-?\d+) wall=(\d+)s ::\s*(.*)$", l.strip())
         if m:
             sid, prop, rc, wall, txt = m.groups()
             fails = sorted(set(re.findall(r"failing: ([^;]*)", txt)))
-            trials.setdefault(sid, {})[prop] = {"cmd": "./check %s --tier quick" % prop, "exit": int(rc), "wall_s": int(wall),
+            hist = trials.get(sid, {}).get(prop, {}).get("history", [])
+            trials.setdefault(sid, {})[prop] = {"history": hist + [{0: "missed", 1: "VIOLATION", 2: "inconclusive"}.get(int(rc), rc)],"cmd": "./check %s --tier quick" % prop, "exit": int(rc), "wall_s": int(wall),
                                                  "verdict": {0: "MISSED (exit 0)", 1: "VIOLATION reported", 2: "inconclusive"}.get(int(rc), rc),
                                                  "failing_obligations": [x.strip() for x in ", ".join(fails).split(", ") if x.strip()]}
 NEEDS = {}
@@ -33,6 +34,8 @@ for d in sorted(glob.glob("/verif/seeded/*/")):
                        "tools/try_seed.sh %s <props>   (git -C /repo apply patch.diff; ./check <prop>; git -C /repo checkout -- .)" % sid],
         "checks": trials.get(sid, {}),
     }
+    if sid == "C18-2":
+        meta["note"] = "patch ported by me onto the tree after the D12 fix (replace() is now a match; same semantic change: the Disable state takes the Disabled shortcut)"
     if sid in ("C08-1",):
         meta["note"] = "same source change as C09-1 (two agents converged on it); patch rebased onto the tree after the D3 fix"
     if sid in ("C09-1",):
